@@ -226,6 +226,44 @@ func rulesC11(w *World, o *Out) {
 			o.Check("C11.R1", name+"|hashed fields are separated", isConst && glued == "", w.Pos(s.Instr.Pos()),
 				"the format of the hashed text puts two values next to each other without a separator ("+glued+"): claims whose adjacent fields split differently share a hash and are pooled")
 		}
+		// ... which only works while a field next to a free-form one cannot itself contain the separator: the
+		// hashed fields that validation restricts to an Ethereum address on the reference tree (table confirmed
+		// by reading) stay restricted on every accepting path of ValidateBasic
+		for _, fld := range claimAddressFields[name] {
+			vb := w.Func("x/skyway/types", name, "ValidateBasic")
+			okV := false
+			if vb != nil && len(vb.Blocks) > 0 {
+				for _, s := range FindCalls(vb, false, isCallee("x/skyway/types", "", "ValidateEthAddress")) {
+					aps, _ := fl.Influence(s.Args()[0])
+					hit := false
+					for a := range aps {
+						if a.Path == "."+fld {
+							hit = true
+						}
+					}
+					if !hit {
+						continue
+					}
+					okV = true
+					for _, r := range Returns(vb) {
+						if r.Kind == RetError {
+							continue
+						}
+						held := false
+						for _, f := range FactsAt(r.Ret) {
+							if f.Kind == FNil && canon(f.V) == ssa.Value(s.Instr.(*ssa.Call)) {
+								held = true
+							}
+						}
+						if !held {
+							okV = false
+						}
+					}
+				}
+			}
+			o.Check("C11.R1", name+"|hashed field "+fld+" admits no separator", okV, w.Pos(ch.Pos()),
+				"the hashed text keeps fields apart with '/': "+fld+" sits next to a free-form field and must be refused by ValidateBasic unless it is an Ethereum address, otherwise two accepted claims that split the same text differently share a hash")
+		}
 		R := w.fieldsRead(T, excl)
 		var rk []string
 		for k := range R {
@@ -394,3 +432,11 @@ func claimHashFormatter(c Callee) bool {
 }
 
 var adjacentVerbs = regexp.MustCompile(`%[-+# 0-9.]*[a-zA-Z]%[-+# 0-9.]*[a-zA-Z]`)
+
+// claimAddressFields: hashed string fields of the claim types that ValidateBasic restricts to an Ethereum
+// address on the reference tree.
+var claimAddressFields = map[string][]string{
+	"MsgSendToPalomaClaim":      {"EthereumSender", "TokenContract"},
+	"MsgBatchSendToRemoteClaim": {"TokenContract"},
+	"MsgBatchSendToEthClaim":    {"TokenContract"},
+}
